@@ -39,6 +39,10 @@ pub struct Case {
     /// it is refused with PacketIdInUse and must not touch the exchange that owns the id
     #[serde(default)]
     pub collide: bool,
+    /// the receipts of `drop_mask` are not dropped as they are: `release()` is called and the future it returns is dropped
+    /// before its first poll (the receipt handle is gone either way)
+    #[serde(default)]
+    pub rel_cancel: bool,
 }
 
 fn fail(c: &Case, rule: &str, detail: String) -> Failure {
@@ -110,7 +114,11 @@ pub async fn run_case(c: Case) -> Result<CaseInfo, Failure> {
         let pos = w.receipts.iter().position(|r| r.1 == ridx && r.2).ok_or_else(|| fail(c, "harness-receipt", "receipt bookkeeping".into()))?;
         if c.drop_mask >> i & 1 == 1 {
             w.receipts[pos].2 = false;
-            w.eut.drop_receipt(ridx);
+            if c.rel_cancel {
+                drop(w.eut.release(ridx));
+            } else {
+                w.eut.drop_receipt(ridx);
+            }
             w.step += 1;
         } else {
             // Release(k) picks the k-th live receipt
@@ -297,13 +305,16 @@ pub fn run(ctx: &Ctx, started: Instant) -> i32 {
                             if m == 4 && qos1 > 1 && flags & 3 != 0 {
                                 continue; // keep the thorough space in bounds
                             }
-                            work.push(Case { role, m, qos1, rec_batch: flags & 1 != 0, poll_between: flags & 2 != 0, rel_order: perm.clone(), drop_mask, comp_batch: flags & 4 != 0, pipelined, tight: false, neg: false, collide: false });
-                            work.push(Case { role, m, qos1, rec_batch: flags & 1 != 0, poll_between: flags & 2 != 0, rel_order: perm.clone(), drop_mask, comp_batch: flags & 4 != 0, pipelined, tight: true, neg: false, collide: false });
+                            work.push(Case { role, m, qos1, rec_batch: flags & 1 != 0, poll_between: flags & 2 != 0, rel_order: perm.clone(), drop_mask, comp_batch: flags & 4 != 0, pipelined, tight: false, neg: false, collide: false, rel_cancel: false });
+                            work.push(Case { role, m, qos1, rec_batch: flags & 1 != 0, poll_between: flags & 2 != 0, rel_order: perm.clone(), drop_mask, comp_batch: flags & 4 != 0, pipelined, tight: true, neg: false, collide: false, rel_cancel: false });
+                            if drop_mask != 0 && m < 4 && qos1 < 2 {
+                                work.push(Case { role, m, qos1, rec_batch: flags & 1 != 0, poll_between: flags & 2 != 0, rel_order: perm.clone(), drop_mask, comp_batch: flags & 4 != 0, pipelined, tight: flags & 2 != 0, neg: false, collide: false, rel_cancel: true });
+                            }
                             if m == 2 && qos1 < 2 {
-                                work.push(Case { role, m, qos1, rec_batch: flags & 1 != 0, poll_between: flags & 2 != 0, rel_order: perm.clone(), drop_mask, comp_batch: flags & 4 != 0, pipelined, tight: false, neg: false, collide: true });
+                                work.push(Case { role, m, qos1, rec_batch: flags & 1 != 0, poll_between: flags & 2 != 0, rel_order: perm.clone(), drop_mask, comp_batch: flags & 4 != 0, pipelined, tight: false, neg: false, collide: true, rel_cancel: false });
                             }
                             if role.is_v5() && (m < 4 || flags & 3 == 0) {
-                                work.push(Case { role, m, qos1, rec_batch: flags & 1 != 0, poll_between: flags & 2 != 0, rel_order: perm.clone(), drop_mask, comp_batch: flags & 4 != 0, pipelined, tight: flags & 1 != 0, neg: true, collide: false });
+                                work.push(Case { role, m, qos1, rec_batch: flags & 1 != 0, poll_between: flags & 2 != 0, rel_order: perm.clone(), drop_mask, comp_batch: flags & 4 != 0, pipelined, tight: flags & 1 != 0, neg: true, collide: false, rel_cancel: false });
                             }
                         }
                     }
@@ -320,7 +331,7 @@ pub fn run(ctx: &Ctx, started: Instant) -> i32 {
     let report = Report {
         level: "exploration",
         rule: format!(
-            "exhaustive: m = 2..={max_m} concurrent send_exactly_once x every release order x every release/drop mask x PUBRECs one per write or batched x polls between PUBRECs x PUBCOMPs singly or batched x pipelined or phased schedule x (v5) the peer refusing the odd packet ids with a negative PUBREC x a refused send asking for the packet id of the first exchange (m = 2) x send window with two slots to spare or exactly full x \
+            "exhaustive: m = 2..={max_m} concurrent send_exactly_once x every release order x every release/drop mask (a dropped receipt is dropped as it is, or release() is called and its future dropped before the first poll) x PUBRECs one per write or batched x polls between PUBRECs x PUBCOMPs singly or batched x pipelined or phased schedule x (v5) the peer refusing the odd packet ids with a negative PUBREC x a refused send asking for the packet id of the first exchange (m = 2) x send window with two slots to spare or exactly full x \
              QoS 1 send before / after the QoS 2 sends / after the PUBRECs, for v3/v5 servers and clients ({} schedules). The peer answers in order of receipt. Oracle: every send resolves with the receipt of its own id; no release fails with UnexpectedRelease; \
              each release or drop writes exactly one PUBREL with its own id (after a negative PUBREC also accepted: no PUBREL and the slot given back at once); a release completes exactly when its own PUBCOMP was delivered; at the end everything completed, connection alive, credit() == limit. \
              Non-trivial = >= 2 exchanges simultaneously between PUBREC and PUBCOMP (or pipelined); distinct = the schedule",
